@@ -257,7 +257,8 @@ std::string run(verif::Reader &r, Case &c, World &w, bool ext) {
                 { va::LibScope l; if (f) *S.obj << (float)v; else *S.obj << v; }
                 S.model += want; w.lab("float"); w.note("%d<<%s(%s); ", i, f ? "float" : "double", want.c_str()); break; }
             case 18: { char ch = (char)r.u8(); { va::LibScope l; *S.obj << ch; } S.model.push_back(ch); w.note("%d<<char; ", i); break; }
-            case 19: case 20: { std::string b = bytes(r, append_len(r, before) % 600, false); ST::string t = ST::string::from_validated(b.data(), b.size());
+            case 19: case 20: { std::string b = bytes(r, append_len(r, before) % 600, op == 20);      // op 20: the ST::string may hold bytes that are not valid UTF-8 (a cut character, from_validated data)
+                ST::string t = ST::string::from_validated(b.data(), b.size());
                 { va::LibScope l; *S.obj << t; } S.model += b; w.note("%d<<ST::string(%zu); ", i, b.size()); break; }
             case 21: { std::string b = bytes(r, append_len(r, before) % 600, true); { va::LibScope l; if (r.flag()) *S.obj << b; else *S.obj << std::string_view(b); } S.model += b; w.note("%d<<std::string(%zu); ", i, b.size()); break; }
             case 22: { std::string b = bytes(r, r.range(0, 40), false); std::u8string t(reinterpret_cast<const char8_t *>(b.data()), b.size());
